@@ -1634,8 +1634,8 @@ Error query_features(Arch arch, const BaseInst& inst, const Operand_* operands, 
 
     // Handle PCLMULQDQ vs VPCLMULQDQ.
     if (out->has(Ext::kVPCLMULQDQ)) {
-      if (reg_analysis.has_reg_type(RegType::kVec512) || Support::test(options, InstOptions::kX86_Evex)) {
-        // AVX512_F & VPCLMULQDQ.
+      if (reg_analysis.has_reg_type(RegType::kVec512) || reg_analysis.high_vec_used || Support::test(options, InstOptions::kX86_Evex)) {
+        // AVX512_F & VPCLMULQDQ (AVX512_VL is cleared later if ZMM register is used).
         out->remove(Ext::kAVX, Ext::kPCLMULQDQ);
       }
       else if (reg_analysis.has_reg_type(RegType::kVec256)) {
